@@ -75,6 +75,19 @@ def queue_head(F, R):
                     wt = hr.blocks[l[2]]['term']
                     ok = const_val(wt['args'][1]) == 1 and 'base' in (apath(hr, wt['args'][0]) or ())
             R.ob('C04.queue-head', 'handle_result|base.set(base.wrapping_add(1))#%s' % ('loop' if bi in hr.reachable_after(bi) else 'head'), ok, 'base must advance by exactly one per popped slot', hr.loc(bi))
+    # drain: once the head slot was popped, every return passes the check of the next queue front
+    # (completed responses parked behind the head are written now; otherwise they and everything after them are stuck)
+    fronts = [bi for bi, t in hr.calls_to(r'VecDeque::<T, A>::front_mut$|VecDeque::<T, A>::front$')]
+    for s_, h, nh in head_edges:
+        head_pops = [pb for pb in pops if pb not in hr.reachable_after(pb)]
+        if not head_pops or not fronts:
+            R.ob('C04.queue-head', 'handle_result|head|parked-responses-drained-before-return', False, 'head pop / drain loop not found', hr.loc(h))
+            continue
+        hp = head_pops[0]
+        tgt = hr.blocks[hp]['term'].get('target', hp)
+        skipping = [r_ for r_ in hr.returns() if r_ in hr.reachable(tgt, avoid=fronts)]
+        R.ob('C04.queue-head', 'handle_result|head|parked-responses-drained-before-return', not skipping,
+             'after the oldest request completed the function can return without looking at the next slots: responses that finished earlier stay parked forever', hr.loc(hp))
     # call_service inline fast path
     cs = F.one(r'^io::DispatcherInner::<P, C, U, E>::call_service$')
     encs = [(bi, t) for bi, t in cs.calls_to(IO_ENCODE)]
